@@ -2289,6 +2289,70 @@ impl CompositionGraph {
     }
 }
 
+/// Verification hooks for the encoding checks (C01-C03); add-only, compiled only with `--cfg wac_verif`.
+#[cfg(wac_verif)]
+impl CompositionGraph {
+    /// For every live node (in index order): its index, its outgoing edges and its incoming
+    /// edges, each in petgraph adjacency order, as `(other endpoint, tag, payload)` with
+    /// tag 0 = alias (payload = export index), 1 = argument (payload = import index),
+    /// 2 = dependency (payload = 0).
+    #[allow(clippy::type_complexity)]
+    pub fn verif_encode_edges(
+        &self,
+    ) -> Vec<(usize, Vec<(usize, u8, usize)>, Vec<(usize, u8, usize)>)> {
+        fn tag(e: &Edge) -> (u8, usize) {
+            match e {
+                Edge::Alias(i) => (0, *i),
+                Edge::Argument(i) => (1, *i),
+                Edge::Dependency => (2, 0),
+            }
+        }
+        self.graph
+            .node_indices()
+            .map(|n| {
+                let out = self
+                    .graph
+                    .edges_directed(n, Direction::Outgoing)
+                    .map(|e| {
+                        let (t, p) = tag(e.weight());
+                        (e.target().index(), t, p)
+                    })
+                    .collect();
+                let inc = self
+                    .graph
+                    .edges_directed(n, Direction::Incoming)
+                    .map(|e| {
+                        let (t, p) = tag(e.weight());
+                        (e.source().index(), t, p)
+                    })
+                    .collect();
+                (n.index(), out, inc)
+            })
+            .collect()
+    }
+
+    /// The result of the encoder's topological sort (`Err` = the node reported for a cycle).
+    pub fn verif_encode_toposort(&self) -> Result<Vec<usize>, usize> {
+        CompositionGraphEncoder::new(self)
+            .toposort()
+            .map(|v| v.into_iter().map(|n| n.index()).collect())
+            .map_err(|n| n.index())
+    }
+
+    /// The export map in `IndexMap` order as `(name, node index)` (dead targets included).
+    pub fn verif_encode_exports(&self) -> Vec<(String, usize)> {
+        self.exports
+            .iter()
+            .map(|(n, i)| (n.clone(), i.index()))
+            .collect()
+    }
+
+    /// The package slot index of a package identifier.
+    pub fn verif_package_slot(id: PackageId) -> usize {
+        id.index
+    }
+}
+
 #[cfg(test)]
 mod test {
     use super::*;
